@@ -108,10 +108,10 @@ class SymCtx:
     def note(self, s):
         self.eng.note(s)
 
-    def abstract(self, value, name):
+    def abstract(self, value, name, same_as=None):
         """cut point (decomposition-boundary cut): returns a fresh symbol standing for `value`; obligations
         created with abstract=True are decided with every occurrence of the cut terms replaced by these symbols"""
-        return self.eng.abstract(value, name)
+        return self.eng.abstract(value, name, same_as)
 
     # obligations
     def eq(self, label, a, b, expect="unsat", core=True, abstract=False, premises=()):
@@ -250,7 +250,7 @@ class ConcCtx:
     def note(self, s):
         self.notes.append(s)
 
-    def abstract(self, value, name):
+    def abstract(self, value, name, same_as=None):
         return value
 
     def eq(self, label, a, b, expect="unsat", core=True, abstract=False, premises=()):
@@ -639,6 +639,13 @@ class Discharger:
             except z3.Z3Exception:
                 pass
         r, m = self.solver.check(pr.pc + pr.divs + extra, self.ob_timeout_ms, want_model=True, purpose="sample")
+        if r == "unsat" and extra:
+            # distinguish "the obligations' terms are undefined on this path" from "the path itself is infeasible"
+            r0, m0 = self.solver.check(pr.pc + pr.divs, self.ob_timeout_ms, want_model=False, purpose="sample")
+            if r0 == "unsat":
+                return "infeasible", None
+        elif r == "unsat":
+            return "infeasible", None
         return r, m
 
     def decide(self, pr, ob):
